@@ -279,3 +279,27 @@ def run(ctx):
                           mech=f"unsupported-data:{desc.split('[')[0]}")
 
     drive.for_each_case(ctx, 'unsupported', max(20, ctx.budget // 10), body_unsupported, gen=lambda c, r: Ty('int'))
+
+    # refused values that cannot be printed (an int too long for str()): still a ConvertError, and its text can still be had
+    if ctx.shard == 0:
+        from .. import special
+        for j, (label, TT, vv) in enumerate(special.unprintable_cases()):
+            for boundary, call in (('from_data', lambda: env.from_data(vv, TT)), ('convert', lambda: env.convert(vv, TT)),
+                                   ('make_converter(T).convert', lambda: env.make_converter(TT).convert(vv))):
+                try:
+                    out = observe(call)
+                    ctx.count('unprintable_value_cases')
+                    wit = {'boundary': boundary, 'type': short(TT, 100), 'value': 'an int with more digits than str() will print, as ' + label, 'outcome': out.brief()[:300]}
+                    if out.kind != 'converr':
+                        ctx.violation('only-ConvertError-escapes', 'unprintable', j, wit,
+                                      mech=f"unprintable-value:{type(out.exc).__name__ if out.kind == 'escape' else 'accepted'}@{escape_site(out.exc) if out.kind == 'escape' else ''}")
+                        continue
+                    for how, f in (('str', str), ('str(tree)', lambda e: str(e.tree))):
+                        r = observe(f, out.exc)
+                        ctx.count('errors_rendered')
+                        if r.kind != 'value':
+                            ctx.violation('only-ConvertError-escapes', 'unprintable', j, {**wit, 'looking_at_the_error': how, 'raised': r.brief()[:300]},
+                                          mech=f"error-text-raises:{type(r.exc).__name__}@{escape_site(r.exc)}")
+                            break
+                except Exception as e:
+                    ctx.crash('unprintable', j, e)
